@@ -1,9 +1,12 @@
 #!/bin/bash
 # soak.sh <seed> <tier> <props...> : build once, then run the given checks without rebuilding
 # (so that patches applied to /repo meanwhile do not leak in); evidence/replays go to ./soak-out.
+# SOAK_MAXSEC caps the wall time per property (default: the tier's own cap).
 seed=$1; tier=$2; shift 2
 ./check setup || exit 2
 mkdir -p soak-out
+extra=""
+[ -n "$SOAK_MAXSEC" ] && extra="--maxsec $SOAK_MAXSEC"
 for p in "$@"; do
-  VERIF_SEED=$seed VERIF_EVIDENCE_DIR=$PWD/soak-out/evidence VERIF_REPLAY_DIR=$PWD/soak-out/replays ./check run $p --tier $tier --no-build 2>&1 | grep "SEED\|SUMMARY\|VIOLATION\|HARNESS\|KNOWN\|signature\|detail" | cut -c1-700
+  VERIF_SEED=$seed VERIF_EVIDENCE_DIR=$PWD/soak-out/evidence VERIF_REPLAY_DIR=$PWD/soak-out/replays ./check run $p --tier $tier --no-build $extra 2>&1 | grep "SEED\|SUMMARY\|VIOLATION\|HARNESS\|KNOWN\|signature\|detail" | cut -c1-700
 done
